@@ -11,7 +11,8 @@ EDGES = {"ring5": [(1, 2), (1, 4), (2, 3), (3, 5), (4, 5)],
          "mixed6": [(1, 2), (1, 5), (2, 4), (2, 6), (3, 5)],
          "two4": [(1, 2), (3, 4)]}
 NN = {"ring5": 5, "ladder6": 6, "mixed6": 6, "two4": 4}
-XMATS = {"a": [[1, 0, 1], [0, 1, 0], [1, 0, 0]], "b": [[1, 1, 0, 0], [0, 0, 1, 0]], "c": [[1, 0], [0, 1], [1, 1]]}
+XMATS = {"a": [[1, 0, 1], [0, 1, 0], [1, 0, 0]], "b": [[1, 1, 0, 0], [0, 0, 1, 0]], "c": [[1, 0], [0, 1], [1, 1]],
+         "d": [[1, 1, 0, 0], [0, 0, 1, 0], [0, 1, 0, 1], [1, 0, 0, 0]]}
 
 
 class RngExhausted(Exception):
@@ -114,9 +115,14 @@ def run_cross(c):
     # the two groups sit at positions `ids` of the network (identity, reversed or interleaved numbering,
     # by case): node lists are then NOT ascending, the cross block in list order is the same X
     import zlib
-    variant = zlib.crc32(c["case"].encode()) % 3
+    variant = zlib.crc32(c["case"].encode()) % 4
+
+    def inner(lo, hi):
+        """lo..hi with both ends in place and the nodes in between in descending order"""
+        return [lo] + list(range(hi - 1, lo, -1)) + ([hi] if hi > lo else [])
     ids = list(range(n)) if variant == 0 else list(range(n))[::-1] if variant == 1 else \
-        [k for k in range(n) if k % 2 == 0] + [k for k in range(n) if k % 2 == 1]
+        [k for k in range(n) if k % 2 == 0] + [k for k in range(n) if k % 2 == 1] if variant == 2 else \
+        inner(0, n1 - 1) + inner(n1, n - 1)
     ids = np.array(ids)
     Areal = np.zeros((n, n), dtype=int)
     Areal[np.ix_(ids, ids)] = A
@@ -140,7 +146,7 @@ def run_cross(c):
         num.randint = saved
     rec["exc"] = exc
     rec["used"] = script.used
-    rec["numbering"] = ["identity", "reversed", "interleaved"][variant]
+    rec["numbering"] = ["identity", "reversed", "interleaved", "contiguous_inner_reversed"][variant]
     rec["A0"] = enc.ints(A)
     rec["n1"] = n1
     # reported in the canonical numbering (group 1 first, in list order)
@@ -286,7 +292,7 @@ def main(ctx):
                 for k, h in enumerate(hs):
                     geo.append({"case": "g_%s_%s_%d_%d" % (s, m, e, k), "blk": "geo", "setup": h[1], "model": h[2],
                                 "eps": h[3], "iter": h[4], "hist": [list(p) for p in h[5]]})
-    for s in "abc":
+    for s in "abcd":
         r = ctx.tlc("CrossSM", "MC_Cross_" + s, workers=1)
         if r.error or r.violated or r.rc != 0:
             raise Machinery("CrossSM %s: design-level check failed\n%s" % (s, r.out[-2000:]))
